@@ -436,8 +436,11 @@ def build(tier, seed):
                    'closure_abstract_states': nstates, 'closure_closed': True,
                    'exact_depth': 3, 'exact_depth3_restricted_to_read_change_read': quick},
         'required_classes': ['closure-state', 'exact-depth-3'] + ['effective:' + n for n in build_ops('AccSignal')[0] if n.startswith(('mut:', 'set:'))],
-        'assumptions': ['generator calls with non-default arguments (p2_plus, n, xi, trap=False, band) are not in the alphabet: they install a '
-                        'user-chosen variant that no fresh object with the same settings can report',
+        'assumptions': ['generator calls with non-default arguments (p2_plus=1, band=20, xi=0.2, trap=False) install a user-chosen variant that no '
+                        'fresh object with the same settings can report: they are operations of the exact mode only, and the family they '
+                        'replace is exempt from the fresh-object comparison until the next operation that has to throw the variant away',
+                        'closure BFS bounded by %d abstract states per class and seed record (the unchanged tree closes at 6 .. 480); '
+                        'a truncated search is reported as not exhaustive' % CLOSURE_STATE_CAP,
                         'canonicalisation: DESIGN.md 2.1; the invariant is evaluated on the concrete object after every transition, before deduplication',
                         'closure: reachable abstract states are enumerated to a fixpoint in build(); a state whose representative already '
                         'violates the invariant is reported by the transition that produced it and is not expanded'],
